@@ -27,7 +27,7 @@ def select(pid, m):
     return {"functions": fns, "modules": mods, "clauses": clauses, "undecided_functions": und}
 
 
-def cex_search(pid, seed, sequences=8000, budget=45):
+def cex_search(pid, seed, sequences=40000, budget=60):
     """-> text of a failing history found on the real code, or None"""
     if os.environ.get("PQ_NO_CEX"):
         return None
@@ -178,11 +178,19 @@ def report(pid, tier, seed, m, sel, res, findings, cmd, t0, outdir):
     # (c) a failure *inside* a new private helper (not `pub`, not a trait method) means "this helper needs a contract"
     # (its callers may only use it in states where it is safe), not "bug"
     private_unknown = set(k for k in unknown if m["functions"].get(k, {}).get("vis", "") != "pub" and not m["functions"].get(k, {}).get("trait_impl"))
-    moved = [f for f in mine if (f["fn"] in leaning and not (f["clause"] or "").endswith("#typeinv.post")) or f["fn"] in private_unknown]
+    # (d) a function whose proof hints lost their anchor (the code around them was rewritten) is verified without them: a
+    # clause that fails there may only be missing its hint -- undecided, handed to the stand-in search.  Built-in safety
+    # obligations and preconditions of callees need no hints of ours and stay violations.
+    hintless = set(k for k, f in m["functions"].items() if f.get("lost_anchors"))
+    def needs_hint(f):
+        low = f["msg"].lower()
+        return f["fn"] in hintless and f["clause"] and ("postcondition" in low or "invariant" in low or "assertion" in low)
+    moved = [f for f in mine if (f["fn"] in leaning and not (f["clause"] or "").endswith("#typeinv.post")) or f["fn"] in private_unknown or needs_hint(f)]
     if moved:
         mine = [f for f in mine if f not in moved]
         for f in moved:
             why = "in a new private function without contract" if f["fn"] in private_unknown else \
+                "in a function whose proof hints lost their anchor: the proof may only be missing them" if needs_hint(f) and f["fn"] not in leaning else \
                 "in a function that calls %s, which has no contract" % ", ".join(sorted(uname & set(m["functions"][f["fn"]].get("callees", []))))
             f = dict(f, kind="tool", msg="%s (%s)" % (f["msg"], why))
             undecided.append(f)
@@ -280,7 +288,7 @@ def report(pid, tier, seed, m, sel, res, findings, cmd, t0, outdir):
             with open(rpath, "w") as fh:
                 fh.write("property: %s\nrepo_head: %s\n" % (pid, m.get("repo_head")))
                 fh.write("the deductive check is UNDECIDED on this tree (see the lines below); BOUNDED stand-in: random-history search on the real crate "
-                         "(8000 histories of at most 120 operations over at most 48 items, both queue kinds)\n")
+                         "(40000 histories of at most 120 operations over at most 48 items, both queue kinds)\n")
                 for key, why in sel.get("undecided_functions", []):
                     fh.write("  undecided: function %s (%s)\n" % (key, why))
                 for f in (masked + undecided)[:10]:
@@ -288,7 +296,7 @@ def report(pid, tier, seed, m, sel, res, findings, cmd, t0, outdir):
                 fh.write("\nfailing input found by harness/cex on the real code (debug build of the crate at %s):\n%s\n" % (os.environ.get("PQ_REPO", "/repo"), cex))
             lines.append("VIOLATION property=%s replay=%s" % (pid, rpath))
             lines.append("  (bounded stand-in: the verifier could not decide this tree; a failing history was found on the real code)")
-            extra["bounded_stand_in"] = "random-history search, 8000 histories <= 120 operations"
+            extra["bounded_stand_in"] = "random-history search, 40000 histories <= 120 operations"
         U = "UNDECIDED" if rc == 2 else "NOTE: deductive check undecided,"
         for f in masked[:10]:
             lines.append(U + " property=%s: its obligations in %s may be masked by the failure of %s (%s), which the verifier assumes afterwards"
